@@ -457,6 +457,22 @@ def run(ctx):
         ctx.sample({'kind': 'vector enumerated by TLC with the response classes of the spec', 'op': some[1][0],
                     'params': {k: v for k, v in some[1][1].items() if v != 'absent'}, 'allowed': [tla_py(r) for r in some[1][2]][:2]})
 
+        # request text inside a script of the demo pages is inside a string literal: the value that ends in a backslash
+        # (it would swallow the closing quote) is sent for certain - the seed that picks it is looked up
+        for op in ('demo_wms', 'demo_tms', 'demo_wmts'):
+            p = {k: v[0] for k, v in catalogue[op].items()}
+            p['format'] = 'hostile'
+            for seed in range(1, 4000):
+                st = W.Strings(random.Random('%s|%s|%s' % (op, sorted(p.items()), seed)), 'hostile')
+                W.concretise(op, p, st)
+                if st.full.get('format', '').endswith('\\'):
+                    break
+            else:
+                raise tlc.MachineryError('no seed sends a FORMAT value that ends in a backslash to %s' % op)
+            allowed = (table.get(pkey(op, p)) or table2.get(pkey(op, p)) or (op, p, None))[2]
+            chk.run_vector(op, p, allowed, 1, seed - 1)
+            ctx.cov['replayed_behaviours'] += 1
+
         # (T) code -> spec: random vectors far from the baseline, recorded and validated by TLC
         events = []
         nrand = 12000 if thorough else 1500
